@@ -1,6 +1,7 @@
 import QuantemModel.Lemmas.DirectPtycho
 import QuantemModel.Lemmas.DirectPtychoReal
 import QuantemModel.Lemmas.DirectKernel
+import QuantemModel.Lemmas.DirectKernelRecombine
 /-!
 # C04 — direct ptychography: batch-invariant, linear, exact on analytic cases
 
@@ -22,6 +23,12 @@ Property theorems about `Model/DirectPtycho.lean` (the streaming skeleton of
 * parallax: `prlx_operator_is_translation` (the operator `exp(-i grad·q)` *is* the Fourier translation
   by `grad/2π` Å — sign and 2π bookkeeping), `prlx_zero_aberration_operator`,
   `parallax_item_partial` (the two limits of the statement, given the two DFT identities listed there).
+* growth round 5 — the kernel formulas as TRANSLATED FROM THE SOURCE on every run (`Generated/DirectKernel.lean`):
+  `generated_probe_eq_spec`, `generated_gamma_eq_spec`, `generated_kernel_eq_spec`, `kernel_linear_in_spectrum`,
+  `kernel_power_eq_spec`, `normalisation_positive`, `generated_norm_eq_model`, `butterworth_no_filter`,
+  `aperture_weight_eq_spec`, `parallax_gradient_eq_shift`, `generated_factor_eq_model`; and the whole model
+  (`reconstructFull`: no factor left as a parameter): `batch_invariant_full`, `linear_in_stack_full`,
+  `submask_recombine_full`, `parallax_shift_full_partial`, `parallax_zero_full_partial`.
 -/
 namespace QuantemModel.Props.C04
 open QuantemModel QuantemModel.DirectPtycho
@@ -544,6 +551,32 @@ theorem linear_in_stack_full (g : KGeom ℝ) (k : Kernel) (pix : List (Nat × Na
       List.zipWith (linRow a) (reconstructFull Fourier.dft g k pix mapping v batches)
         (reconstructFull Fourier.dft g k pix mapping w batches) :=
   linear_in_stack_dft k (geometryOf g k pix mapping) a v w h batches hnd
+
+/--
+**Recombination for the WHOLE model (single-pass kernels).**  `pixAll` = the detector pixels of the construction mask;
+`A`, `B`, `S` = the stack rows of three sub-masks with `A ++ B` a permutation of `S`.  The three reconstructions computed
+from (stack, their own mask pixels, hyper-parameters) — kernel formulas, aperture weights and all — satisfy
+`W_A·bf_A + W_B·bf_B = W_S·bf_S` with `W = bfWeights` (the sum of the squared apertures of the mask's pixels), whatever the
+three schedules.
+-/
+theorem submask_recombine_full (F : Fourier ℝ) (g : KGeom ℝ) (k : Kernel) (hk : k.twoPass = false)
+    (pixAll : List (Nat × Nat)) (stack : List (Img ℝ))
+    (hlen : ∀ s, (singlePassValue F (problemOfStack F (geometryOf g k pixAll (List.range pixAll.length)) stack) s).length =
+      (g.u * g.scanRows) * (g.u * g.scanCols))
+    (A B S : List Nat) (hS : (A ++ B).Perm S) (hA' : ∀ a ∈ A, a < pixAll.length) (hB' : ∀ a ∈ B, a < pixAll.length)
+    (hA : bfWeights g (pixOf pixAll A) ≠ 0) (hB : bfWeights g (pixOf pixAll B) ≠ 0) (hW : bfWeights g (pixOf pixAll S) ≠ 0)
+    (sA sB sS : List (List Nat))
+    (hsA : sA.flatten.Perm (List.range A.length)) (hsB : sB.flatten.Perm (List.range B.length))
+    (hsS : sS.flatten.Perm (List.range S.length)) :
+    addI (smulI (bfWeights g (pixOf pixAll A))
+            (correctedBf ((g.u * g.scanRows) * (g.u * g.scanCols)) (reconstructFull F g k (pixOf pixAll A) A stack sA)))
+         (smulI (bfWeights g (pixOf pixAll B))
+            (correctedBf ((g.u * g.scanRows) * (g.u * g.scanCols)) (reconstructFull F g k (pixOf pixAll B) B stack sB))) =
+      smulI (bfWeights g (pixOf pixAll S))
+        (correctedBf ((g.u * g.scanRows) * (g.u * g.scanCols)) (reconstructFull F g k (pixOf pixAll S) S stack sS)) :=
+  submask_recombine_full_aux F g k hk pixAll stack hlen A B S hS hA' hB' hA hB hW sA sB sS hsA hsB hsS
+
+example : pixOf [(0, 0), (0, 1), (1, 0), (6, 0)] [1, 3] = [(0, 1), (6, 0)] ∧ ([1, 3] ++ [0, 2]).Perm [0, 1, 2, 3] := by decide
 
 /-- `geometryOf` hands the skeleton the factor image of the i-th mask pixel -/
 theorem geometryOf_K_prlx (g : KGeom ℝ) (pix : List (Nat × Nat)) (mapping : List Nat) (i : Nat)
